@@ -41,7 +41,7 @@ func unbondProfile() Profile {
 func slashProfile() Profile {
 	p := baseProfile()
 	p.Name = "slash"
-	p.Weights = map[string]int{KDelegate: 22, KUndelegate: 12, KRedelegate: 18, KClaim: 3, KBlock: 14, KSlashHook: 12, KSlash: 10, KUnbTime: 2, KJail: 1, KUnjail: 1, KDelete: 1, KCreate: 1, GRedelThenExit: 5, GMultiRedelSlash: 3, GPackBucket: 4}
+	p.Weights = map[string]int{KDelegate: 22, KUndelegate: 12, KRedelegate: 18, KClaim: 3, KBlock: 14, KSlashHook: 12, KSlash: 10, KUnbTime: 2, KJail: 1, KUnjail: 1, KDelete: 1, KCreate: 1, GRedelThenExit: 5, GMultiRedelSlash: 3, GPackBucket: 4, GMultiUnbondSlash: 3}
 	p.FocusDelPct = 40
 	return p
 }
@@ -135,6 +135,7 @@ func init() {
 			p.Weights[KBlock] = 30
 			p.Weights[KClaim] = 10
 			p.Weights[GMultiRedelSlash] = 6
+			p.Weights[GMultiUnbondSlash] = 6
 			p.Weights[GRedelThenExit] = 3
 			return tierSteps(p, tier)
 		},
@@ -142,7 +143,7 @@ func init() {
 		NonTrivial: func(x *Exec) bool {
 			return x.Has("c19:>=3-assets-on-one-validator-with-deposit") || x.Has("c14:several-assets-decay-in-one-block") || x.Has("weight-decayed") && x.Has("ok:"+KClaim)
 		},
-		Rule: "stateful rapid histories (core profile forced to 3 assets, decay on); each generated history is re-executed 3 more times on sibling branches of the same base state within the process; raw KV digests of the alliance, bank, staking and distribution stores, every op result and every event list must be identical (Go randomises map iteration per range statement); non-trivial = >=3 assets staked on one validator that received a reward deposit, or weights decayed and rewards were claimed; distinct = distinct concrete op list",
+		Rule: "stateful rapid histories (core profile forced to 3 assets, decay on, composites packing several redelegations / several unbonding buckets of one validator before a slash); each generated history is (a) re-executed 5 more times on sibling branches of the same base state within the process: raw KV digests of the alliance, bank, staking and distribution stores, every op result and every event list must be identical (Go randomises map iteration per range statement); (b) executed on a second world whose base block time lies 29 years earlier, on the other side of the wall clock: results and every observable, with times taken relative to the base, must agree (time translation: only block time may be read); (c) for half of the shards, executed again by a second OS process from the same rapid seed (other GOMAXPROCS/GOGC): per-case digests must agree; non-trivial = >=3 assets staked on one validator that received a reward deposit, or weights decayed and rewards were claimed; distinct = distinct concrete op list",
 	})
 }
 
@@ -352,7 +353,7 @@ func init() {
 		Profile: func(tier string) Profile {
 			p := slashProfile()
 			p.Name = "redelegate"
-			p.Weights = map[string]int{KDelegate: 22, KUndelegate: 8, KRedelegate: 30, KClaim: 2, KBlock: 20, KSlashHook: 3, KSlash: 3, KUnbTime: 3}
+			p.Weights = map[string]int{KDelegate: 22, KUndelegate: 8, KRedelegate: 30, KClaim: 2, KBlock: 20, KSlashHook: 3, KSlash: 3, KUnbTime: 3, GShareFraction: 4}
 			p.InvalidPct = 4
 			return tierSteps(p, tier)
 		},
